@@ -21,7 +21,7 @@ for d in sorted(glob.glob('/verif/seeded/C*-m*/'), key=key):
     summ = re.sub(r'\s+', ' ', meta.get('summary', '')).replace('|', '\\|')
     if len(summ) > 170:
         summ = summ[:167] + '...'
-    rnd = '2' if meta.get('round') == 2 else '1'
+    rnd = str(meta.get("round", 1))
     props, rules = res.get(sid, (None, 'not run'))
     own = sid.split('-')[0]
     if props is None:
